@@ -293,15 +293,13 @@ Fixpoint zip2_existsb {X Y} (f : X -> Y -> bool) (a : list X) (b : list Y) : boo
 Definition ksingle_wf_hook (h : hook) : bool :=
   match h with HKSingle m _ last => ksingle_wf m last | _ => true end.
 
-(* a passthrough hook with nothing pending makes no decision at all and run_hooks then panics
-   ("No decision to release"); the tick-level statement assumes the builder never schedules
-   that (see Props/C36.v, run_hooks_passthrough_empty) *)
-Definition pass_ok (h : hook) : bool :=
-  match h with HPass q _ => negb (is_nil q) | _ => true end.
-
-(* the scheduler runs a tick's hooks only when [can_run]; hooks are idle then *)
+(* the scheduler runs a tick's hooks only when [can_run]; hooks are idle then.
+   NOTE: a PassthroughSingletonHook with nothing pending is [is_ready] (trait default) and makes
+   no decision at all; run_hooks then panics.  Such ticks ARE scheduled by the real simulator
+   (known finding, see Props/C36.v C36_run_hooks_no_panic_refuted), so they are not excluded
+   here: the panic is a property failure. *)
 Definition legit_tick (hs : list hook) : bool :=
-  forallb idle hs && can_run hs && forallb ksingle_wf_hook hs && forallb pass_ok hs.
+  forallb idle hs && can_run hs && forallb ksingle_wf_hook hs.
 
 (* C36 on a tick: every hook's release is sound, and the tick releases something new *)
 Definition C36_tick_b (hs : list hook) (o : tobs) : bool :=
